@@ -419,8 +419,8 @@ class Ctx:
                                        for _, k, d in inputs[:20]],
                     "no_longer_checks": [{"name": k, "detail": d}
                                          for _, k, d in unproved[:20]],
-                    "replay": "bin/check %s --tier %s --seed %d" %
-                    (self.prop, self.tier, self.seed)},
+                    "replay": "bin/check %s --replay <this file>  (= --tier "
+                    "%s --seed %d)" % (self.prop, self.tier, self.seed)},
                     f, indent=1, default=repr)
             tail = "" if inputs else " no-failing-input-found"
             print("VIOLATION property=%s replay=%s%s" %
@@ -471,7 +471,18 @@ def main(argv):
     ap.add_argument("--tier", default=os.environ.get("VERIF_TIER", "quick"))
     ap.add_argument("--seed", type=int,
                     default=int(os.environ.get("VERIF_SEED", "20260930")))
+    ap.add_argument("--replay", help="replay file written by a failing run: "
+                    "re-runs the check with the tier and seed recorded there "
+                    "(the generators are deterministic in the seed)")
     args = ap.parse_args(argv)
+    if args.replay:
+        rec = json.load(open(args.replay))
+        args.tier, args.seed = rec["tier"], rec["seed"]
+        print("replaying %s: tier=%s seed=%d; recorded failing inputs: %d, "
+              "no longer checking: %s" % (
+                  args.replay, args.tier, args.seed,
+                  len(rec.get("failing_inputs", [])),
+                  [x["name"] for x in rec.get("no_longer_checks", [])]))
     sys.path.insert(0, os.path.join(VERIF, "harness"))
     mod = importlib.import_module("checks.%s" % args.prop.lower())
     ctx = Ctx(args.prop, args.tier, args.seed)
